@@ -352,16 +352,20 @@ theorem mapVisit_KA (A : Node) (cfg : Config) (ok) (hcfg : CfgOk ok cfg) (f : Na
     · have := ihk _ (by omega) (fun x hx => htk x (by simp [hx])) hs1 hfo (by omega)
       omega
 
-/-- the block visitor standing on a block one of whose statements holds the arrow function `A` at a
-    position the operation visitor reaches: the body of `A`, wrapped, is entered by the nested traversal -/
-theorem block_arrow_cover (ok) (cfg : Config) (hcfg : CfgOk ok cfg) (d : String) (sp0 : Span) (A : Node) (opFuel f : Nat)
-    (ss : List Node) (sp : Span) (s : St) (hs : StOk s) (hg : goodW ok true (.block ss sp) = true)
+/-- standing on a block one of whose statements holds the arrow function `A` at a reached position:
+    whatever standing on the wrapped body of `A` guarantees (`hselfA`) is delivered, because the nested
+    traversal finds that block among the visited statements -/
+theorem block_arrow_cover_gen (ok) (cfg : Config) (hcfg : CfgOk ok cfg) (d : String) (sp0 : Span) (A : Node) (opFuel : Nat) (c : Nat)
+    (hselfA : ∀ (f : Nat) (ss : List Node) (sp : Span) (s : St), StOk s → goodW ok true (.block ss sp) = true →
+      StOk (blockVisit cfg opFuel (f + 1) (.block ss sp) s).2 → (blockVisit cfg opFuel (f + 1) (.block ss sp) s).2.fuelOut = false →
+      Node.block ss sp = pseudo A → c ≤ cq (qAt d sp0) (blockVisit cfg opFuel (f + 1) (.block ss sp) s).1)
+    (f : Nat) (ss : List Node) (sp : Span) (s : St) (hs : StOk s) (hg : goodW ok true (.block ss sp) = true)
     (hfin : StOk (blockVisit cfg opFuel (f + 1) (.block ss sp) s).2)
     (hfo : (blockVisit cfg opFuel (f + 1) (.block ss sp) s).2.fuelOut = false)
     (hpos : 1 ≤ vaL cfg A ss) :
-    RL cfg d sp0 (stmtsOf (pseudo A)) ≤ cq (qAt d sp0) (blockVisit cfg opFuel (f + 1) (.block ss sp) s).1 := by
-  have hlist := mapReach (qAt d sp0) ok (pseudo A) (RL cfg d sp0 (stmtsOf (pseudo A))) (blockVisit cfg opFuel f)
-    (fun k s hs hg hf hfo hp => blockVisit_reach ok cfg hcfg d sp0 (pseudo A) opFuel f k s hs hg hf hfo hp)
+    c ≤ cq (qAt d sp0) (blockVisit cfg opFuel (f + 1) (.block ss sp) s).1 := by
+  have hlist := mapReach (qAt d sp0) ok (pseudo A) c (blockVisit cfg opFuel f)
+    (fun k s hs hg hf hfo hp => blockVisit_reach_gen ok cfg hcfg d sp0 (pseudo A) opFuel c hselfA f k s hs hg hf hfo hp)
     (fun k s hs hg => blockVisit_spec ok cfg hcfg opFuel f k s hs hg)
     (fun k s h => blockVisit_canc cfg opFuel f k s h)
   rw [good_block] at hg
@@ -405,6 +409,50 @@ theorem block_arrow_cover (ok) (cfg : Config) (hcfg : CfgOk ok cfg) (d : String)
     have := hlist ks2' s1 hs1 g2 hfin hfo (by omega)
     simp only [cq_block]
     exact this
+
+
+/-- the block visitor standing on a block one of whose statements holds the arrow function `A` at a
+    position the operation visitor reaches: the body of `A`, wrapped, is entered by the nested traversal -/
+theorem block_arrow_cover (ok) (cfg : Config) (hcfg : CfgOk ok cfg) (d : String) (sp0 : Span) (A : Node) (opFuel f : Nat)
+    (ss : List Node) (sp : Span) (s : St) (hs : StOk s) (hg : goodW ok true (.block ss sp) = true)
+    (hfin : StOk (blockVisit cfg opFuel (f + 1) (.block ss sp) s).2)
+    (hfo : (blockVisit cfg opFuel (f + 1) (.block ss sp) s).2.fuelOut = false)
+    (hpos : 1 ≤ vaL cfg A ss) :
+    RL cfg d sp0 (stmtsOf (pseudo A)) ≤ cq (qAt d sp0) (blockVisit cfg opFuel (f + 1) (.block ss sp) s).1 :=
+  block_arrow_cover_gen ok cfg hcfg d sp0 A opFuel _ (fun f ss sp s hs hg hfin hfo hB => by
+    rw [← hB]
+    exact block_cover ok cfg hcfg d sp0 opFuel f ss sp s hs hg hfin hfo) f ss sp s hs hg hfin hfo hpos
+
+/-- what standing on the block `B` guarantees for the site: what its own statements require, and — through
+    any chain of arrow functions written without braces, each reached from the statements of the one
+    before (`xs.map(x => x.ys.map(y => y + z))`) — what their bodies require -/
+inductive EnteredVia (cfg : Config) (d : String) (sp0 : Span) : Node → Nat → Prop
+  | self (B : Node) : EnteredVia cfg d sp0 B (RL cfg d sp0 (stmtsOf B))
+  | arrow (B1 A : Node) (c : Nat) : 1 ≤ vaL cfg A (stmtsOf B1) → EnteredVia cfg d sp0 (pseudo A) c → EnteredVia cfg d sp0 B1 c
+
+theorem EnteredVia.cover (ok) (cfg : Config) (hcfg : CfgOk ok cfg) (d : String) (sp0 : Span) (opFuel : Nat)
+    {B : Node} {c : Nat} (h : EnteredVia cfg d sp0 B c) :
+    ∀ (f : Nat) (ss : List Node) (sp : Span) (s : St), StOk s → goodW ok true (.block ss sp) = true →
+      StOk (blockVisit cfg opFuel (f + 1) (.block ss sp) s).2 → (blockVisit cfg opFuel (f + 1) (.block ss sp) s).2.fuelOut = false →
+      Node.block ss sp = B → c ≤ cq (qAt d sp0) (blockVisit cfg opFuel (f + 1) (.block ss sp) s).1 := by
+  induction h with
+  | self B =>
+    intro f ss sp s hs hg hfin hfo hB
+    rw [← hB]
+    exact block_cover ok cfg hcfg d sp0 opFuel f ss sp s hs hg hfin hfo
+  | arrow B1 A c hA _ ih =>
+    intro f ss sp s hs hg hfin hfo hB
+    subst hB
+    exact block_arrow_cover_gen ok cfg hcfg d sp0 A opFuel c ih f ss sp s hs hg hfin hfo hA
+
+/-- whatever node the block visitor is started on: a block statement occurring in it delivers what
+    standing on it guarantees -/
+theorem blockVisit_reach_via (ok) (cfg : Config) (hcfg : CfgOk ok cfg) (d : String) (sp0 : Span) (B : Node) (opFuel : Nat) (c : Nat)
+    (h : EnteredVia cfg d sp0 B c) :
+    ∀ (f : Nat) (n : Node) (s : St), StOk s → goodW ok true n = true → StOk (blockVisit cfg opFuel f n s).2 →
+      (blockVisit cfg opFuel f n s).2.fuelOut = false → 1 ≤ cb B n →
+      c ≤ cq (qAt d sp0) (blockVisit cfg opFuel f n s).1 :=
+  blockVisit_reach_gen ok cfg hcfg d sp0 B opFuel c (h.cover ok cfg hcfg d sp0 opFuel)
 
 /-- **every reached arrow function of every block statement is entered**: for the block `B1` anywhere in
     the tree and the arrow function `A` at a reached position of one of its statements -/
